@@ -68,6 +68,7 @@ type Conn struct {
 	writeBuf       []byte
 	writeHeaderBuf [8]byte
 	writeHeader    header
+	closeSent      bool // a close frame was handed to the transport; protected by writeFrameMu
 
 	closeReadMu   sync.Mutex
 	closeReadCtx  context.Context
